@@ -555,10 +555,11 @@ impl<Backing : AsRef<[u32]> + AsMut<[u32]>> DrawTarget<Backing> {
         let clip = match self.clip_stack.last() {
             Some(Clip {
                      rect: current_clip,
-                     mask: _,
+                     mask,
                  }) => Clip {
                 rect: current_clip.intersection_unchecked(&rect),
-                mask: None,
+                // keep clipping to any path that was pushed before us
+                mask: mask.clone(),
             },
             _ => Clip {
                 rect: rect,
